@@ -16,7 +16,7 @@ from vlib.core import Stage, fail
 ID = "C16"
 MANIFEST = {
     "category": "fault_enumeration",
-    "text": "Generated fault injection with a differential oracle: deep AHBs x content evaluation results x a drawn non-empty set of nodes (groups, segments, free-text elements, entries of value pools) each receiving a structurally invalid expression (neutral-vs-requirement O/X mix or bare hint/format-constraint pair at any depth; under any indicator; alone, as a later modal-mark part, or hidden in a package). validate_deep_anwendungshandbuch of the faulted AHB must not raise InvalidExpressionError; compared with the run on the AHB where each injected expression is replaced by 'Kann': NotImplementedError in one iff in the other, same discriminators in the same order, every non-faulted node's result equal (value pools with a faulted entry included: the entry counts as selectable), every faulted group/segment/free-text node reported optional with a non-empty reason as hint.",
+    "text": "Generated fault injection with a differential oracle: deep AHBs x content evaluation results x a drawn non-empty set of nodes (groups, segments, free-text elements, entries of value pools) each receiving a structurally invalid expression (neutral-vs-requirement O/X mix or bare hint/format-constraint pair at any depth; under any indicator; alone, as a later modal-mark part, or hidden in a package; also every entry of one value pool at once). validate_deep_anwendungshandbuch of the faulted AHB must not raise InvalidExpressionError; compared with the run on the AHB where each injected expression is replaced by 'Kann': NotImplementedError in one iff in the other, same discriminators in the same order, every non-faulted node's result equal (value pools with a faulted entry included: the entry counts as selectable), every faulted group/segment/free-text node reported optional with a non-empty reason as hint.",
     "note": "Trusted: gen.g_dom_invalid / ref.validity (the injected expressions are invalid by the structural criterion of C06), attrs equality of results. Faults are sampled, not enumerated exhaustively: subsets of up to 5 nodes per tree.",
     "technique": "property-based fault injection with a differential oracle (faulted AHB vs the same AHB with 'Kann' at the faulted nodes)",
 }
@@ -102,6 +102,7 @@ def check(case):
             info["visited_faults"] += 1
             info["levels"].add("vp-entry")
     info["levels"] = sorted(info["levels"])
+    info["whole_pool"] = any(node["d"] in visited and len(node["pool"]) > 1 and all(e["expr"].get("fault") for e in node["pool"]) for node in pools)
     return info
 
 
@@ -134,6 +135,8 @@ def classify(case, info):
         labels.append("hidden-in-package")
     if case.get("later_part"):
         labels.append("fault-in-later-part")
+    if info.get("whole_pool"):
+        labels.append("all-entries-of-a-pool-faulted")
     nontrivial = (info["visited_faults"] >= 2 and len(info["levels"]) >= 2) or info["big_subtree"]
     return labels, nontrivial
 
@@ -149,6 +152,11 @@ def strategy(tier):
         chosen = draw(st.lists(st.integers(0, len(slots) - 1), min_size=count, max_size=count, unique=True))
         # bias towards the upper levels so that faults are visited and have something below them
         chosen = sorted(set(chosen + [draw(st.integers(0, min(3, len(slots) - 1)))]))
+        # every entry of one multi-entry pool at once (no valid entry left in it)
+        pools = sorted({id(node): node for kind, node, _, index in slots if kind == "vp" and len(node["pool"]) > 1}.values(), key=lambda n: n["d"])
+        if pools and draw(st.sampled_from(range(3))) == 0:
+            victim = draw(st.sampled_from(pools))
+            chosen = sorted(set(chosen) | {i for i, slot in enumerate(slots) if slot[1] is victim})
         hidden = later = False
         for position in chosen:
             kind, node, expr, index = slots[position]
@@ -186,6 +194,6 @@ STAGES = [
     Stage(name="faults", kind="hyp", check=check, classify=classify, strategy=strategy,
           budget={"quick": 100, "thorough": 800},
           floors={"fault-at-group": 0.2, "fault-at-seg": 0.1, "fault-at-ft": 0.05, "fault-at-vp-entry": 0.03,
-                  "hidden-in-package": 0.1, "fault-in-later-part": 0.1},
+                  "hidden-in-package": 0.1, "fault-in-later-part": 0.1, "all-entries-of-a-pool-faulted": 0.03},
           sample=sample),
 ]  # fmt: skip
